@@ -241,6 +241,42 @@ def offsets_text():
     return st.one_of(st.sampled_from([0, 60, -60, 330, -210, 840, -840, 765, 1, -1, 599, -720]), st.integers(-840, 840)).map(fmt)
 
 
+_TRANSITIONS: dict = {}
+
+
+def transitions(zone: str, year: int) -> list:
+    """Instants (microseconds) at which the zone's UTC offset changes during the year, found by scanning zoneinfo hour by hour (then to the second)."""
+    key = (zone, year)
+    if key not in _TRANSITIONS:
+        import datetime as _dt
+        import zoneinfo
+
+        z = zoneinfo.ZoneInfo(zone)
+        start = int(_dt.datetime(year, 1, 1, tzinfo=_dt.timezone.utc).timestamp())
+        out, prev = [], None
+        for h in range(0, 366 * 24):
+            t = start + h * 3600
+            off = _dt.datetime.fromtimestamp(t, _dt.timezone.utc).astimezone(z).utcoffset()
+            if prev is not None and off != prev:
+                out.append(t * 10**6)  # the offset changed during the hour ending here (transitions fall on whole hours or half hours)
+            prev = off
+        _TRANSITIONS[key] = out
+    return _TRANSITIONS[key]
+
+
+@st.composite
+def near_transition(draw):
+    """(instant, zone) with the instant within 15 hours of a change of the zone's UTC offset: where a conversion that asks the zone for its offset with
+    the wrong wall clock goes wrong."""
+    zone = draw(st.sampled_from(DST_ZONES))
+    year = draw(st.integers(1971, 2036))
+    ts = transitions(zone, year)
+    if not ts:
+        return draw(st.integers(T1970, T2037)), zone
+    t = draw(st.sampled_from(ts))
+    return t + draw(st.integers(-15 * 3600, 15 * 3600)) * 10**6 + draw(st.sampled_from([0, 0, 1, 999999, 500000])), zone
+
+
 def campaign(run: common.Run) -> None:
     q = run.tier == "quick"
 
@@ -264,6 +300,12 @@ def campaign(run: common.Run) -> None:
     common.drive(run, body_acc, {"us": st.one_of(values.timestamp_us(), recent, recent), "zone": zones,
                                   "bo": st.sampled_from([0, 0, 0, 60, -300, 330])}, 1200 if q else 8000, seed_salt=2)
     common.drive(run, body_dt, {"c": duration_text()}, 1500 if q else 8000, seed_salt=3)
+
+    def body_near(c, bo):
+        run.event("near-offset-transition")
+        check_accessors(run, c[0], c[1], bo, run.hyp_fail)
+
+    common.drive(run, body_near, {"c": near_transition(), "bo": st.sampled_from([0, 0, 60, -300])}, 400 if q else 4000, seed_salt=4)
 
 
 def main(run: common.Run) -> None:
